@@ -139,13 +139,24 @@ def d_lns(minimize, neg, cfg):
     return res, f, None
 
 
+# weight lists handed to alns as the caller's own objects: reset before a primary execution, deliberately NOT before
+# the replays that follow it (mirror image, determinism) - a second call with the same arguments must repeat the first
+ALNS_W = {"d": [1.0, 1.0], "r": [1.0, 1.0], "fresh": True}
+
+
 def d_alns(minimize, neg, cfg):
     m = mod("lns")
     f = OracleFn(V3, neg)
     d_ops = [lambda s, r: ("a", s), lambda s, r: ("b", s)]
     r_ops = [lambda p, r: (p[1] + 1) % 3, lambda p, r: (p[1] + 2) % 3]
+    extra = {}
+    if cfg.get("weights"):
+        if minimize and not neg and not e2.current().prefix_is_replay:
+            ALNS_W["d"][:] = [1.0, 1.0]
+            ALNS_W["r"][:] = [1.0, 1.0]
+        extra = {"destroy_weights": ALNS_W["d"], "repair_weights": ALNS_W["r"]}
     with Patched("lns"):
-        res = m.alns(cfg.get("start", 0), f, d_ops, r_ops, minimize=minimize, accept=cfg["accept"], start_temp=1.0, cooling_rate=cfg.get("cooling_rate", 0.9995), segment_size=cfg.get("segment", 1), max_iter=cfg["max_iter"], seed=1, **stopper(cfg.get("stop")))
+        res = m.alns(cfg.get("start", 0), f, d_ops, r_ops, minimize=minimize, accept=cfg["accept"], start_temp=1.0, cooling_rate=cfg.get("cooling_rate", 0.9995), segment_size=cfg.get("segment", 1), max_iter=cfg["max_iter"], seed=1, **extra, **stopper(cfg.get("stop")))
     return res, f, None
 
 
@@ -205,7 +216,7 @@ DRIVERS = {
     "anneal": (d_anneal, [dict(cooling=c, max_iter=3, stop=s) for c in ("exp", "lin", "log") for s in (0, 1, 2)] + [dict(cooling=c, max_iter=3, stop=0, start=1) for c in ("exp", "lin")], None),
     "tabu_search": (d_tabu, [dict(moves=mv, cooldown=cd, max_iter=3, stop=s) for mv in (2, 3) for cd in (1, 2) for s in (0, 1, 2)] + [dict(moves=mv, cooldown=cd, max_iter=3, stop=0, start=1) for mv in (2, 3) for cd in (1, 2)], None),
     "lns": (d_lns, [dict(accept=a, max_iter=3 if a != "simulated_annealing" else 2, stop=s) for a in ("improving", "accept_all", "simulated_annealing") for s in (0, 1, 2)] + [dict(accept="simulated_annealing", cooling_rate=1e-6, max_iter=3, stop=0)] + [dict(accept=a, max_iter=2, stop=0, start=1) for a in ("improving", "accept_all")], None),  # last: temperature frozen (< 1e-10) from the third iteration on
-    "alns": (d_alns, [dict(accept="improving", max_iter=2, segment=sg, stop=s) for sg in (1, 2) for s in (0, 1)] + [dict(accept="simulated_annealing", max_iter=2, segment=1, stop=0, max_dev=3), dict(accept="accept_all", max_iter=3, segment=2, stop=0, max_dev=3), dict(accept="accept_all", max_iter=3, segment=2, stop=2, max_dev=3), dict(accept="accept_all", max_iter=2, segment=1, stop=1), dict(accept="simulated_annealing", max_iter=3, segment=1, stop=2, max_dev=3), dict(accept="simulated_annealing", cooling_rate=1e-6, max_iter=3, segment=1, stop=0, max_dev=3), dict(accept="improving", max_iter=2, segment=1, stop=0, start=1)], None),
+    "alns": (d_alns, [dict(accept="improving", max_iter=2, segment=sg, stop=s) for sg in (1, 2) for s in (0, 1)] + [dict(accept="simulated_annealing", max_iter=2, segment=1, stop=0, max_dev=3), dict(accept="accept_all", max_iter=3, segment=2, stop=0, max_dev=3), dict(accept="accept_all", max_iter=3, segment=2, stop=2, max_dev=3), dict(accept="accept_all", max_iter=2, segment=1, stop=1), dict(accept="simulated_annealing", max_iter=3, segment=1, stop=2, max_dev=3), dict(accept="simulated_annealing", cooling_rate=1e-6, max_iter=3, segment=1, stop=0, max_dev=3), dict(accept="improving", max_iter=2, segment=1, stop=0, start=1), dict(accept="accept_all", max_iter=3, segment=1, stop=0, weights=True, max_dev=3)], None),
     "evolve": (
         d_evolve,
         [dict(adaptive=ad, k=1, max_iter=1, stop=0, elite=1) for ad in (False, True)]
